@@ -152,6 +152,10 @@ def sketch_rules(ctx):
 
 def run(ctx):
     sketch_rules(ctx)
+    # the sketch's verification randomness must differ per candidate: for the fixed-key AES instantiation that is the
+    # keystream rule of C11 (block counter over all eight little-endian bytes, block range, offsets), shared here
+    from rules import c11
+    c11.run_fill(ctx)
     rule = "R-C04.T.verify_next"
     try:
         f = ctx.fn(rule, name="verify_next", trait="Aggregator", self_adt=POPLAR1)
